@@ -385,4 +385,95 @@ theorem euIssue_jump_sim {app : App} {s : State} {a : Arch} {eu : ExecUnit} {r :
       · show btbAdd (assert s r).btb r.pc e.NextPc = _
         rw [f13, hapc]
 
+
+/-! ### the count of executed instructions (for every state): it goes up exactly when `executeUnit.run` is called -/
+
+theorem euQueue5_executed (s : State) (r : Runner) (e : Gen.Execution) (eu : ExecUnit) (mmu : Model.Mmu.Mmu) :
+    (Model.Mvp5.euQueue s r e eu mmu).1.base.executed = s.base.executed ∧
+    (Model.Mvp5.euQueue s r e eu mmu).1.base.eu.processing = eu.processing := by
+  obtain ⟨q1, q2⟩ := euQueue_executed s.base r e eu mmu
+  unfold Model.Mvp5.euQueue
+  simp only
+  split
+  · unfold notifyJumpAddressResolved fuReset
+    exact ⟨q1, q2⟩
+  · exact ⟨q1, q2⟩
+
+theorem euRun5_exec {app : App} {s s2 : State} {r : Runner} {b : List Byte} {out : EuOut}
+    (h : Model.Mvp5.euRun app s r b = .ok (s2, out)) :
+    s2.base.executed = s.base.executed + 1 ∧ (out = .none → s2.base.eu.processing = false) := by
+  unfold Model.Mvp5.euRun at h
+  simp only at h
+  split at h
+  · cases h
+  · obtain ⟨rfl, rfl⟩ := ok_pair_inj' h
+    exact ⟨rfl, fun hx => by cases hx⟩
+  · rename_i e _
+    split at h
+    · obtain ⟨rfl, rfl⟩ := ok_pair_inj' h
+      exact ⟨rfl, fun hx => by cases hx⟩
+    · obtain ⟨⟨inL1D, mmu1⟩, h1, h2⟩ := bind_ok_inv' h
+      simp only at h2
+      split at h2
+      · obtain ⟨mmu2, h3, h4⟩ := bind_ok_inv' h2
+        obtain ⟨rfl, rfl⟩ := ok_pair_inj' h4
+        exact ⟨rfl, fun _ => rfl⟩
+      · simp only [pure, Except.pure] at h2
+        injection h2 with h2
+        have := congrArg Prod.fst h2
+        simp only at this
+        rw [← this]
+        obtain ⟨q1, q2⟩ := euQueue5_executed { s with base := { s.base with executed := s.base.executed + 1 } } r e
+          { s.base.eu with processing := false, runner := none } mmu1
+        exact ⟨q1, fun _ => q2⟩
+
+theorem euIssue5_exec {app : App} {s s2 : State} {eu : ExecUnit} {r : Runner} {out : EuOut}
+    (h : Model.Mvp5.euIssue app s eu r = .ok (s2, out)) :
+    (s2.base.executed = s.base.executed ∧ s2.base.eu.processing = eu.processing ∧ out = .none) ∨
+    (s2.base.executed = s.base.executed + 1 ∧ (out = .none → s2.base.eu.processing = false)) := by
+  obtain ⟨_, _, _, _, _, _, _, _, _, _, f11, _⟩ := assert_frame { instrs := [], labels := {} } s r
+  unfold Model.Mvp5.euIssue at h
+  simp only at h
+  split at h
+  · obtain ⟨rfl, rfl⟩ := ok_pair_inj' h; exact Or.inl ⟨f11, rfl, rfl⟩
+  · split at h
+    · split at h
+      · obtain ⟨rfl, rfl⟩ := ok_pair_inj' h; exact Or.inl ⟨f11, rfl, rfl⟩
+      · obtain ⟨⟨m, mmu1⟩, h1, h2⟩ := bind_ok_inv' h
+        simp only at h2
+        split at h2
+        · obtain ⟨rfl, rfl⟩ := ok_pair_inj' h2; exact Or.inl ⟨f11, rfl, rfl⟩
+        · obtain ⟨rfl, rfl⟩ := ok_pair_inj' h2; exact Or.inl ⟨f11, rfl, rfl⟩
+    · obtain ⟨e1, e2⟩ := euRun5_exec h
+      exact Or.inr ⟨by rw [e1]; show (assert s r).base.executed + 1 = _; rw [f11], e2⟩
+
+theorem euMemDone5_exec {app : App} {s s2 : State} {eu : ExecUnit} {r : Runner} {out : EuOut}
+    (h : Model.Mvp5.euMemDone app s eu r = .ok (s2, out)) : s2.base.executed = s.base.executed + 1 := by
+  unfold Model.Mvp5.euMemDone at h
+  split at h
+  · exact (euRun5_exec h).1
+  · split at h
+    · cases h
+    · obtain ⟨line, _, h2⟩ := bind_ok_inv' h
+      obtain ⟨⟨mmu1, mem1⟩, h3, h4⟩ := bind_ok_inv' h2
+      obtain ⟨⟨m, mmu2⟩, h5, h6⟩ := bind_ok_inv' h4
+      simp only at h6
+      split at h6
+      · cases h6
+      · exact (euRun5_exec h6).1
+
+theorem euStep5_out_exec {app : App} {s s2 : State} {eu : ExecUnit} {out : EuOut}
+    (h : Model.Mvp5.euStep app s eu = .ok (s2, out)) (hne : out ≠ .none) : s2.base.executed = s.base.executed + 1 := by
+  unfold Model.Mvp5.euStep at h
+  simp only at h
+  split at h
+  · obtain ⟨_, rfl⟩ := ok_pair_inj' h; exact absurd rfl hne
+  · split at h
+    · obtain ⟨_, rfl⟩ := ok_pair_inj' h; exact absurd rfl hne
+    · split at h
+      · cases h
+      · rcases euIssue5_exec h with ⟨_, _, e⟩ | ⟨e, _⟩
+        · exact absurd e hne
+        · exact e
+
 end Proofs.Mvp5
